@@ -17,6 +17,7 @@ import os
 import sys
 
 HOOK = "__wdsim_y__"
+QUIET_HOOK = "__wdsim_q__"
 _state = {"installed": False, "src": None, "stmts": 0, "modules": []}
 
 
@@ -26,7 +27,7 @@ _CUR = None  # prims.CURRENT, bound at install time (a module-level import per c
 def _hook():
     """Pre-emption point.  No-op outside a run or when line-level pre-emption is off for the run."""
     sim = _CUR[0]
-    if sim is not None and sim.cur is not None:
+    if sim is not None and sim.cur is not None and not sim.quiet_depth:
         if sim.monitor_on:
             sim.line_event()
         else:
@@ -36,6 +37,12 @@ def _hook():
             if sim.free_statements > sim.free_statement_cap and not sim.aborting:
                 sim._end_run(("stepcap", f"{sim.free_statements} statements executed"), sim.cur)
     return None
+
+
+def _quiet(delta):
+    sim = _CUR[0]
+    if sim is not None:
+        sim.quiet_depth = max(0, sim.quiet_depth + delta)
 
 
 class _T(ast.NodeTransformer):
@@ -61,14 +68,20 @@ class _T(ast.NodeTransformer):
             out.append(st)
         return out
 
-    SKIP = {"__eq__", "__ne__", "__hash__", "__repr__", "__str__", "__lt__", "__le__", "__gt__", "__ge__"}
+    QUIET = {"__eq__", "__ne__", "__lt__", "__le__", "__gt__", "__ge__"}
 
     def _visit_fn(self, node):
-        # Comparison / hash methods and property getters are called implicitly by dict and set operations; how often
-        # depends on hash collisions, i.e. on PYTHONHASHSEED (str and bytes paths with the same content even hash
-        # alike, so two watches on one directory given as str and as bytes always collide).  Pre-emption points inside
-        # them would make step numbers depend on the hash seed (found by selftest-determinism), so they get none.
-        if node.name in self.SKIP or any(getattr(d, "id", getattr(d, "attr", None)) in ("property", "cached_property") for d in node.decorator_list):
+        # Comparison methods are called implicitly by dict and set operations; how often depends on hash collisions,
+        # i.e. on PYTHONHASHSEED (a str path and the equal bytes path even hash alike, so two watches on one directory
+        # given as str and as bytes always collide).  Pre-emption points reached from inside them would make step numbers
+        # depend on the hash seed (found by selftest-determinism), so their bodies run "quiet": no hook fires until they
+        # return.  __hash__ and property getters keep their hooks (one call per dict operation, independent of collisions):
+        # a dict operation on keys with a Python-level __hash__ is not atomic, and races through it must stay reachable.
+        if node.name in self.QUIET:
+            quiet_on = ast.Expr(ast.Call(ast.Name(QUIET_HOOK, ast.Load()), [ast.Constant(1)], []))
+            quiet_off = ast.Expr(ast.Call(ast.Name(QUIET_HOOK, ast.Load()), [ast.Constant(-1)], []))
+            body = node.body
+            node.body = [ast.copy_location(quiet_on, body[0]), ast.copy_location(ast.Try(body=body, handlers=[], orelse=[], finalbody=[quiet_off]), body[0])]
             return node
         self.depth += 1
         self.generic_visit(node)
@@ -153,6 +166,7 @@ def install(src):
         if name == "watchdog" or name.startswith("watchdog."):
             raise RuntimeError(f"{name} imported before the instrumentation hook was installed")
     setattr(builtins, HOOK, _hook)
+    setattr(builtins, QUIET_HOOK, _quiet)
     sys.dont_write_bytecode = True
     sys.meta_path.insert(0, _Finder(src))
     _state["installed"] = True
